@@ -3,4 +3,5 @@ CONSTANT Universe = "full"
 INVARIANT InvColumnOrder
 INVARIANT InvRowOrder
 INVARIANT InvIntended
+INVARIANT InvLoopRefines
 CHECK_DEADLOCK FALSE
